@@ -121,9 +121,12 @@ mutual
 theorem completeValue_sim : (d : RVal) → ∀ (t : TypeRef) (fds : List FieldDetails) (path : IPath),
     Sim cx path true (fun h => FdsOk h fds) (completeValue cx t fds path d)
       (Spec.completeValue (toSpec cx) t (fds.map (·.node)) (asList path) d)
-  | .raise tag, t, fds, path => by
+  | .raise tag none, t, fds, path => by
     unfold completeValue Spec.completeValue
     exact Sim.throw_raw _
+  | .raise tag (some p), t, fds, path => by
+    unfold completeValue Spec.completeValue
+    exact Sim.throw_located _
   | .null, t, fds, path => by
     unfold completeValue Spec.completeValue
     exact completeNull_sim cx path _ t
